@@ -16,47 +16,47 @@ variable {α : Type} [Field α] [CharZero α]
 /-- A well-formed spectrum: one value per cell, every population has at least one chromosome. -/
 def Wf (a : Arr α) : Prop := a.data.length = size a.shape ∧ ∀ v ∈ a.shape, 2 ≤ v
 
-theorem fold_invariant_S (a : Arr α) (h : Wf a) : segregating (foldZero a).data = segregating a.data := by
-  sorry
+theorem fold_invariant_S (a : Arr α) (h : Wf a) : segregating (foldZero a).data = segregating a.data :=
+  sf_fold_segregating a h.1
 
-theorem fold_invariant_pi (a : Arr α) (h : Wf a) (h1 : a.shape.length = 1) : statPi (foldZero a).data = statPi a.data := by
-  sorry
+theorem fold_invariant_pi (a : Arr α) (h : Wf a) (h1 : a.shape.length = 1) : statPi (foldZero a).data = statPi a.data :=
+  sf_fold_pi a h.1
 
 theorem fold_invariant_theta (a : Arr α) (h : Wf a) (h1 : a.shape.length = 1) :
-    statTheta (foldZero a).data = statTheta a.data := by
-  sorry
+    statTheta (foldZero a).data = statTheta a.data :=
+  sf_fold_theta a h.1
 
 theorem fold_invariant_tajimaD (a : Arr α) (h : Wf a) (h1 : a.shape.length = 1) :
     (dTajima (foldZero a).data).num = (dTajima a.data).num ∧ (dTajima (foldZero a).data).var = (dTajima a.data).var := by
-  sorry
+  rw [sf_fold_dTajima a h.1]; exact ⟨rfl, rfl⟩
 
-theorem fold_invariant_pixy (a : Arr α) (h : Wf a) (h2 : a.shape.length = 2) : statPiXY (foldZero a) = statPiXY a := by
-  sorry
+theorem fold_invariant_pixy (a : Arr α) (h : Wf a) (h2 : a.shape.length = 2) : statPiXY (foldZero a) = statPiXY a :=
+  sf_fold_pixy a h.1 h.2 h2
 
 theorem fold_invariant_f2 (a : Arr α) (h : Wf a) (h2 : a.shape.length = 2) :
-    statF2 (normalized (foldZero a)) = statF2 (normalized a) := by
-  sorry
+    statF2 (normalized (foldZero a)) = statF2 (normalized a) :=
+  sf_fold_f2 a h.1 h.2 h2
 
 theorem fold_invariant_f3 (a : Arr α) (h : Wf a) (h3 : a.shape.length = 3) :
-    statF3 (normalized (foldZero a)) = statF3 (normalized a) := by
-  sorry
+    statF3 (normalized (foldZero a)) = statF3 (normalized a) :=
+  sf_fold_f3 a h.1 h.2 h3
 
 theorem fold_invariant_f4 (a : Arr α) (h : Wf a) (h4 : a.shape.length = 4) :
-    statF4 (normalized (foldZero a)) = statF4 (normalized a) := by
-  sorry
+    statF4 (normalized (foldZero a)) = statF4 (normalized a) :=
+  sf_fold_f4 a h.1 h.2 h4
 
 theorem fold_invariant_fst (a : Arr α) (h : Wf a) (h2 : a.shape.length = 2) :
-    statFst (normalized (foldZero a)) = statFst (normalized a) := by
-  sorry
+    statFst (normalized (foldZero a)) = statFst (normalized a) :=
+  sf_fold_fst a h.1 h.2 h2
 
-theorem fold_invariant_king (a : Arr α) (h : Wf a) (h33 : a.shape = [3, 3]) : statKing (foldZero a) = statKing a := by
-  sorry
+theorem fold_invariant_king (a : Arr α) (h : Wf a) (h33 : a.shape = [3, 3]) : statKing (foldZero a) = statKing a :=
+  sf_fold_king a h33
 
-theorem fold_invariant_r0 (a : Arr α) (h : Wf a) (h33 : a.shape = [3, 3]) : statR0 (foldZero a) = statR0 a := by
-  sorry
+theorem fold_invariant_r0 (a : Arr α) (h : Wf a) (h33 : a.shape = [3, 3]) : statR0 (foldZero a) = statR0 a :=
+  sf_fold_r0 a h33
 
-theorem fold_invariant_r1 (a : Arr α) (h : Wf a) (h33 : a.shape = [3, 3]) : statR1 (foldZero a) = statR1 a := by
-  sorry
+theorem fold_invariant_r1 (a : Arr α) (h : Wf a) (h33 : a.shape = [3, 3]) : statR1 (foldZero a) = statR1 a :=
+  sf_fold_r1 a h33
 
 /-! non-vacuity -/
 example : statPiXY (α := Rat) (foldZero ⟨[5, 1, 4, 2, 8, 3, 0, 7, 6, 9, 2, 1], [4, 3]⟩) = statPiXY ⟨[5, 1, 4, 2, 8, 3, 0, 7, 6, 9, 2, 1], [4, 3]⟩ ∧
